@@ -358,7 +358,11 @@ let check_mux id (bops : bop list) (script : sink_ev list) (ops : string list li
         ("C02", check_C02_mux b ops cls sink);
         ("C03", check_C03 b ops cls sink);
         ("C04", check_C04 b ops outs);
-        ("C06", check_C06 b ops cls lens stats (script = []));
+        (* the theorem's scope: the duration clause is stated (and can hold for any binary64 return value)
+           only while the largest presentation end is below 2^51 ticks; beyond it the check is skipped *)
+        ("C06", (not (N.ltb (expected_max_end (accepted b ops cls)) (n_of_hex "8000000000000"))) ||
+                check_C06 b ops cls lens stats (script = []));
+        ("C06scope", N.ltb (expected_max_end (accepted b ops cls)) (n_of_hex "8000000000000"));
         ("C09", check_C09 b ops cls sink);
         ("C15", check_C15 b ops cls sink);
         ("C07", check_C07 b ops cls sink);
